@@ -293,6 +293,7 @@ type TLG struct {
 	collect bool
 	probe   func(in ssa.Instruction, eval func(ssa.Value) AV, locAV func(key string) (AV, bool))
 	pure    map[*ssa.Function]bool
+	assume  map[ssa.Value]AV // Probe only: case split on a value
 	Sinks   []*Sink
 	Sources map[string]int // source description -> count (evidence)
 
@@ -331,6 +332,13 @@ func (c *Ctx) TLG() *TLG {
 	sort.SliceStable(t.Sinks, func(i, j int) bool { return t.Sinks[i].Key() < t.Sinks[j].Key() })
 	c.tlg = t
 	return t
+}
+
+// ProbeAssume is Probe under the assumption that value v has the abstract value av.
+func (t *TLG) ProbeAssume(fn *ssa.Function, v ssa.Value, av AV, visit func(in ssa.Instruction, eval func(ssa.Value) AV, locAV func(key string) (AV, bool))) {
+	t.assume = map[ssa.Value]AV{v: av}
+	defer func() { t.assume = nil }()
+	t.Probe(fn, visit)
 }
 
 // pureFn: a module function that only computes: no stores outside its own
@@ -1402,6 +1410,11 @@ func (a *fnAn) instr(in ssa.Instruction, st tstate, collect bool) {
 	if v, ok := in.(ssa.Value); ok {
 		if _, isPhi := in.(*ssa.Phi); !isPhi {
 			delete(st, "V:"+v.Name())
+		}
+		if av, ok := a.t.assume[v]; ok {
+			st["V:"+v.Name()] = av
+			a.vals[v.Name()] = v
+			return
 		}
 	}
 	switch x := in.(type) {
